@@ -8,4 +8,13 @@ PROPS = {
         "claim": "Theorems (all files, all 64 byte positions, all replacement values, all page sizes 1024<<k, k<=14): any single-byte change of a meta struct invalidates it (FNV-1a step injectivity); DB.meta()/getPageSize/Open then select the other meta and still detect the page size; both damaged or a too-small file is an error. The model functions are run on the bytes of real files and compared with the real Open on every one of the 32 640 single-byte damages per file, plus torn prefixes, both-damaged, truncated and garbage files; the content presented is compared with the state recorded for the surviving meta.",
         "note": "Trusted: Lean kernel; hand model of Meta.Validate/DB.meta/getPageSize*/mmap (Bolt/Model/Meta.lean) tied by correspondence, constants/layout regenerated (Gen) and proved equal to the published v2 layout; CleanFile hypothesis (zero tail of page 0) is evaluated on every real file. Not modelled: mmap coherence, flock.",
     },
+    "C09": {
+        "engines": [("flprog",)],
+        "trusted_base": ["hand model Bolt/Model/Freelist.lean of internal/freelist/{shared,array,hashmap}.go, tied by allocator-only correspondence on both real backends (full state compared after every op)"],
+        "assumptions": ["transaction ids stay below 2^64-1 (the tid+1 wrap at MaxUint64 is out of scope)",
+                        "the hashmap backend's three indexes are modelled as one sorted list of maximal spans; Go map iteration order is a checked choice argument"],
+        "partial": "",
+        "claim": "18 theorems over the allocator model, for every state satisfying FLInv and every op sequence: Allocate returns the first id of n consecutive free pages (array: the lowest such run; hashmap: for every span the map iteration may pick) or 0 exactly when no run exists; never pages 0/1; Free makes the run pending and not allocatable; ReleasePendingPages releases a page only if no registered reader r has alloctx <= r < freeing txid, releases everything without readers, loses/duplicates nothing; Rollback restores the prior free and pending sets; Write/Read preserves free+pending for every length including >= 0xFFFF; both backends compute the same free list. The model is run op by op against both real backends (3000 random programs quick / 60000 thorough, whole allocator state compared after every op) and decidable monitors (allocOK, never01, freeNotReusable, releaseSafe, releaseLive, rollbackRestores, writeReadPreserves) are evaluated on the implementation's own state.",
+        "note": "Trusted: Lean kernel; the hand-written allocator model (tied by correspondence only); verif export hooks reading the allocator state. Two defects found by this check were repaired (F8 reader at txid 0, F10 hashmap Init(empty) stale cache; see known_findings.json fixed).",
+    },
 }
